@@ -126,6 +126,23 @@ pub fn configs(prop: &str, thorough: bool) -> Vec<SimConfig> {
                     v.push(c3);
                 }
             }
+            // histories in which one origin's connection has been idle, is checked out again and is
+            // released while another origin's request is waiting: request completion abbreviated to one
+            // macro step so that three requests over two origins fit the depth bound
+            for (name, os) in [("host", vec!["http://a", "http://b"]), ("scheme", vec!["http://a", "https://a"])] {
+                if name == "scheme" && !thorough {
+                    continue;
+                }
+                let mut c = full(&format!("n3-macro-{name}"), 3, true);
+                c.origins = origins(&os);
+                c.allow_h2 = thorough;
+                c.ev_close = false;
+                c.ev_dial_fail = false;
+                c.ev_cancel = thorough;
+                c.macro_finish = true;
+                c.max_depth = Some(if thorough { 16 } else { 13 });
+                v.push(c);
+            }
             let mut c = full("n3-three-origins", 3, true);
             c.origins = origins(&["http://a", "https://a", "http://a:8080"]);
             c.ev_dial_fail = false;
